@@ -10,6 +10,9 @@ PROP = dict(
         n=dict(quick=20, thorough=300),
         env={'VERIF_C09_OPS': '30000'},
         timeout=dict(quick=900, thorough=3000),
+        # targeted search after a broken tie/proof in the quick tier: three times the seeded rounds of a quick run at the
+        # thorough operation count (x4), instead of the whole thorough stress (~3 min)
+        search_n=60, search_env={'VERIF_C09_OPS': '10000'},
         nontrivial=r'^(round |a \| \d|f \d+ \| [012])',
         rule='one evaluation = one line of the harness trace: a sequential AllocFrame/FreeFrame/stats call on the real '
              'BitmapAllocator replayed through the Lean pmm model (a | frame, f x | code, s | dump), a lock-leak probe after '
